@@ -119,3 +119,19 @@ Proof.
   - intros H. destruct (N.ltb_spec 100 code); [lia|reflexivity].
   - intros [H1 H2]. destruct (N.leb_spec 101 code); [|lia]. destruct (N.leb_spec code 399); [reflexivity|lia].
 Qed.
+
+(* a forked INVITE: the builder is not changed by creating a dialog, every answer gets a dialog with its own peer tag *)
+Lemma fork_own_tag b rp d : from_response b rp = Some d ->
+  d_peer_tag d = p_to_tag rp /\ d_call_id d = b_call_id b /\ d_local_tag d = b_local_tag b.
+Proof.
+  unfold from_response. destruct (p_to_tag rp) as [t|]; [|discriminate]. destruct (p_contact rp) as [c|]; [|discriminate].
+  intros H. injection H as <-. auto.
+Qed.
+
+Lemma forks_distinct b rp1 rp2 d1 d2 :
+  from_response b rp1 = Some d1 -> from_response b rp2 = Some d2 -> p_to_tag rp1 <> p_to_tag rp2 ->
+  (d_call_id d1, d_peer_tag d1, d_local_tag d1) <> (d_call_id d2, d_peer_tag d2, d_local_tag d2).
+Proof.
+  intros H1 H2 N. destruct (fork_own_tag _ _ _ H1) as (T1 & _ & _). destruct (fork_own_tag _ _ _ H2) as (T2 & _ & _).
+  intros E. injection E as _ E _. congruence.
+Qed.
